@@ -133,6 +133,52 @@ func buildVC(w *World, c *Contract) (vc *FuncVC) {
 			e.oblige(&Obligation{Name: c.Func + ".cover.ensures." + cl.Label, Kind: "cover", Clause: "antecedent of: " + cl.Expr, Goal: and(res.reach, a), Cover: true, Func: c.Func, Pos: e.posOf(fn.Pos())})
 		}
 	}
+	// relational clauses: a second, independent execution from the same entry heap
+	if rels := c.byKind("relates"); len(rels) > 0 {
+		var args2 []Val
+		for _, p := range fn.Params {
+			v := e.freshVal(p.Type(), "in2_"+p.Name())
+			e.assumeInputRefs(v, p.Type())
+			args2 = append(args2, v)
+		}
+		for _, cl := range c.byKind("requires") {
+			pf := w.Preds[c.Pkg+"."+cl.Pred]
+			e.sc.assume(e.evalPred(pf, args2, h0, nil))
+		}
+		// Run 2 is executed on top of run 1's final heap. This is equivalent to a
+		// second run from the entry heap provided run 1 wrote only objects it allocated
+		// itself (checked below): run 2's inputs are pre-existing objects and can never
+		// alias them. Both results are then visible in one heap.
+		for k := range res.heap {
+			if e.dirty[k] {
+				fail("relational clause on %s: the function writes pre-existing objects (%s)", c.Func, shortKey(k))
+			}
+		}
+		res2 := e.execFunction(fn, args2, nil, "true", res.heap)
+		var resList2 []Val
+		if tv, ok := res2.ret.(TupleVal); ok {
+			resList2 = tv
+		} else if res2.ret != nil {
+			resList2 = []Val{res2.ret}
+		}
+		for _, cl := range rels {
+			pf := w.Preds[c.Pkg+"."+cl.Pred]
+			all := append(append(append(append([]Val{}, args...), args2...), resList...), resList2...)
+			t := e.evalPred(pf, all, res2.heap, nil)
+			e.oblige(&Obligation{
+				Name:   c.Func + ".relates." + cl.Label,
+				Kind:   "ensures",
+				Clause: cl.Expr,
+				Goal:   implies(and(res.reach, res2.reach), t),
+				Pos:    fmt.Sprintf("%s:%d", strings.TrimPrefix(cl.File, w.RepoDir+"/"), cl.Line),
+				Func:   c.Func,
+			})
+			if ap := w.Preds[c.Pkg+"."+cl.Pred+"_ant"]; ap != nil {
+				a := e.evalPred(ap, all, res2.heap, nil)
+				e.oblige(&Obligation{Name: c.Func + ".cover.relates." + cl.Label, Kind: "cover", Clause: "antecedent of: " + cl.Expr, Goal: and(res.reach, res2.reach, a), Cover: true, Func: c.Func, Pos: e.posOf(fn.Pos())})
+			}
+		}
+	}
 	// frame: components changed for pre-existing objects must be listed in assigns
 	e.frameObligations(c, res, h0)
 	vc.Obls = e.obls
